@@ -12,9 +12,32 @@ dict as (key, text of the value) pairs (`str` as it is, `bool` as `True`/`False`
 abbrev SpecExp := Str × Str × Option Nat × Option Int × List (Str × Str)
 abbrev SpecCase := Str × List SpecExp
 
-def lookupKey (k : Str) : List (Str × Str) → Option Str
+def lookupKey {α : Type} (k : Str) : List (Str × α) → Option α
   | [] => none
   | (k', v) :: r => if k' == k then some v else lookupKey k r
+
+/-- a decimal text `ddd` or `ddd.ddd` (what `repr` gives for the scores the Specs state) as `(n, 10^k)` -/
+def parseDec (s : Str) : Option (Nat × Nat) :=
+  let go := fun (acc : Option (Nat × Nat × Bool × Nat)) (c : Nat) =>
+    match acc with
+    | none => none
+    | some (n, d, seenDot, digits) =>
+      if 48 ≤ c && c ≤ 57 then some (n * 10 + (c - 48), if seenDot then d * 10 else d, seenDot, digits + 1)
+      else if c == 46 && !seenDot && digits > 0 then some (n, d, true, digits)
+      else none
+  match s.foldl go (some (0, 1, false, 0)) with
+  | some (n, d, _, digits) => if digits > 0 then some (n, d) else none
+  | none => none
+
+/-- the reported value against the text the Specs state: a text is that text; a fraction `num/den` agrees with a
+decimal text `p/q` when `|num/den − p/q| ≤ 1e-9` (`den > 0`) -/
+def valAgree (m : RVal) (e : Str) : Bool :=
+  match m with
+  | .text s => s == e
+  | .frac num den =>
+    match parseDec e with
+    | some (p, q) => decide (0 < den) && decide ((num * (q : Int) - (p : Int) * den).natAbs * 1000000000 ≤ den.natAbs * q)
+    | none => false
 
 /-- a reported entity against the expected one: type name, text, offsets WHERE GIVEN, and every resolution field the
 case states except the keys in `skip` (the model may carry further keys: the Specs of another platform do not list
@@ -23,7 +46,8 @@ def entAgree (skip : List Str) (m : SpecEnt) (e : SpecExp) : Bool :=
   m.typeName == e.1 && m.text == e.2.1 &&
   (match e.2.2.1 with | some a => m.start == a | none => true) &&
   (match e.2.2.2.1 with | some b => m.stop == b | none => true) &&
-  e.2.2.2.2.all fun kv => skip.contains kv.1 || lookupKey kv.1 m.res == some kv.2
+  e.2.2.2.2.all fun kv => skip.contains kv.1 ||
+    (match lookupKey kv.1 m.res with | some v => valAgree v kv.2 | none => false)
 
 /-- same count, same order, every entity agrees -/
 def entsAgree (skip : List Str) (m : List SpecEnt) (e : List SpecExp) : Bool :=
@@ -52,7 +76,10 @@ def casesOKDiffer (k : Str) (run : Str → Option (List SpecEnt)) (cases : List 
     | none => false
     | some m =>
       entsAgree [k] m c.2 &&
-      (m.zip c.2).all fun p => (lookupKey k p.2.2.2.2.2).isSome && lookupKey k p.1.res != lookupKey k p.2.2.2.2.2
+      (m.zip c.2).all fun p =>
+        match lookupKey k p.1.res, lookupKey k p.2.2.2.2.2 with
+        | some v, some e => !valAgree v e
+        | _, _ => false
 
 theorem casesOK_iff (run : Str → Option (List SpecEnt)) (cases : List SpecCase) :
     casesOK run cases = true ↔ ∀ c ∈ cases, ∃ m, run c.1 = some m ∧ entsAgree [] m c.2 = true := by
@@ -85,7 +112,7 @@ theorem casesOKAbsent_spec (k : Str) (run : Str → Option (List SpecEnt)) (case
 theorem casesOKDiffer_spec (k : Str) (run : Str → Option (List SpecEnt)) (cases : List SpecCase)
     (h : casesOKDiffer k run cases = true) :
     ∀ c ∈ cases, ∃ m, run c.1 = some m ∧ entsAgree [k] m c.2 = true ∧
-      ∀ p ∈ m.zip c.2, (lookupKey k p.2.2.2.2.2).isSome = true ∧ lookupKey k p.1.res ≠ lookupKey k p.2.2.2.2.2 := by
+      ∀ p ∈ m.zip c.2, ∃ v e, lookupKey k p.1.res = some v ∧ lookupKey k p.2.2.2.2.2 = some e ∧ valAgree v e = false := by
   intro c hc
   have := List.all_eq_true.1 h c hc
   cases hr : run c.1 with
@@ -94,14 +121,24 @@ theorem casesOKDiffer_spec (k : Str) (run : Str → Option (List SpecEnt)) (case
     simp only [hr, Bool.and_eq_true, List.all_eq_true] at this
     refine ⟨m, rfl, this.1, ?_⟩
     intro p hp
-    have := this.2 p hp
-    exact ⟨this.1, by simpa using this.2⟩
+    have h2 := this.2 p hp
+    cases h3 : lookupKey k p.1.res with
+    | none => simp [h3] at h2
+    | some v =>
+      cases h4 : lookupKey k p.2.2.2.2.2 with
+      | none => simp [h3, h4] at h2
+      | some e => exact ⟨v, e, rfl, rfl, by simpa [h3, h4] using h2⟩
 
 /-- number of expected entities in a family (the `Except` verdicts are about these) -/
 def expectedCount (cases : List SpecCase) : Nat := (cases.map fun c => c.2.length).sum
 
+/-- the IP family, code after the `Resolution.type` fix: every stated field -/
 def ipOK (E : SeqEnv) (zh : Bool) (cases : List SpecCase) : Bool :=
-  casesOKAbsent kType (fun q => some (ipModelRun E zh q)) cases
+  casesOK (fun q => some (ipModelRun E zh true q)) cases
+
+/-- the IP family, code before the fix: everything but `type`, which is absent -/
+def ipPreFixOK (E : SeqEnv) (zh : Bool) (cases : List SpecCase) : Bool :=
+  casesOKAbsent kType (fun q => some (ipModelRun E zh false q)) cases
 
 def guidOK (E : SeqEnv) (cases : List SpecCase) : Bool := casesOK (fun q => some (guidModelRun E q)) cases
 
@@ -111,7 +148,11 @@ def simpleOK (E : SeqEnv) (re : RE) (typeName : Str) (cases : List SpecCase) : B
 def urlSpecOK (E : SeqEnv) (zh : Bool) (cases : List SpecCase) : Bool :=
   casesOK (fun q => some (urlSpecRun E zh q)) cases
 
-def boolOK (E : RTV.Choice.Env) (cases : List SpecCase) : Bool :=
+/-- the boolean family, code after the `Resolution.score` fix: every stated field (the score within 1e-9) -/
+def boolOK (E : RTV.Choice.Env) (cases : List SpecCase) : Bool := casesOK (boolModelRun E) cases
+
+/-- the boolean family, code before the fix: everything but the score, which differs for every entity -/
+def boolPreFixOK (E : RTV.Choice.Env) (cases : List SpecCase) : Bool :=
   casesOKDiffer kScore (boolModelRun E) cases
 
 /-- the full statement for a family: for every case the recogniser returns (no exception) entities that agree with the
@@ -133,9 +174,16 @@ theorem urlSpecOK_spec (E : SeqEnv) (zh : Bool) (cases : List SpecCase) (h : url
   (casesOK_iff (fun q => some (urlSpecRun E zh q)) cases).1 h
 
 theorem ipOK_spec (E : SeqEnv) (zh : Bool) (cases : List SpecCase) (h : ipOK E zh cases = true) :
-    FamilyAgrees [kType] (fun q => some (ipModelRun E zh q)) cases ∧
+    FamilyAgrees [] (fun q => some (ipModelRun E zh true q)) cases :=
+  (casesOK_iff (fun q => some (ipModelRun E zh true q)) cases).1 h
+
+theorem boolOK_spec (E : RTV.Choice.Env) (cases : List SpecCase) (h : boolOK E cases = true) :
+    FamilyAgrees [] (boolModelRun E) cases := (casesOK_iff (boolModelRun E) cases).1 h
+
+theorem ipPreFixOK_spec (E : SeqEnv) (zh : Bool) (cases : List SpecCase) (h : ipPreFixOK E zh cases = true) :
+    FamilyAgrees [kType] (fun q => some (ipModelRun E zh false q)) cases ∧
     ∀ c ∈ cases, (∀ e ∈ c.2, (lookupKey kType e.2.2.2.2).isSome = true) ∧
-      ∀ x ∈ ipModelRun E zh c.1, lookupKey kType x.res = none := by
+      ∀ x ∈ ipModelRun E zh false c.1, lookupKey kType x.res = none := by
   constructor
   · intro c hc
     obtain ⟨m, hm, ha, _⟩ := casesOKAbsent_spec _ _ _ h c hc
@@ -145,11 +193,11 @@ theorem ipOK_spec (E : SeqEnv) (zh : Bool) (cases : List SpecCase) (h : ipOK E z
     cases hm
     exact ⟨he, hx⟩
 
-theorem boolOK_spec (E : RTV.Choice.Env) (cases : List SpecCase) (h : boolOK E cases = true) :
+theorem boolPreFixOK_spec (E : RTV.Choice.Env) (cases : List SpecCase) (h : boolPreFixOK E cases = true) :
     FamilyAgrees [kScore] (boolModelRun E) cases ∧
     ∀ c ∈ cases, ∃ m, boolModelRun E c.1 = some m ∧
-      ∀ p ∈ m.zip c.2, (lookupKey kScore p.2.2.2.2.2).isSome = true ∧
-        lookupKey kScore p.1.res ≠ lookupKey kScore p.2.2.2.2.2 := by
+      ∀ p ∈ m.zip c.2, ∃ v e, lookupKey kScore p.1.res = some v ∧ lookupKey kScore p.2.2.2.2.2 = some e ∧
+        valAgree v e = false := by
   constructor
   · intro c hc
     obtain ⟨m, hm, ha, _⟩ := casesOKDiffer_spec _ _ _ h c hc
